@@ -16,6 +16,9 @@ CLAIMED = {
  'C04': dict(engine='symx', design='4/C04', technique='symbolic execution of the real svd/qr/eigh pipelines with LAPACK leaf calls replaced by contract stubs (fresh outputs + defining equations); z3 QF_NRA unsat queries for reconstruction, isometry, ordering, sign; pinned rational witness as vacuity guard',
    text='For catalogue tensors (7 symmetries, rank 2-4, all bipartitions/orders via covering array, sU/sQ, nU, Uaxis/Vaxis/Qaxis/Raxis, zero/non-zero charge, real/complex, lazy/consumed, hard/meta-fused inputs) every input element and every LAPACK output admitted by the contract is a solver variable; z3 proves U S V == a, Q R == a, U S U^H == a, U^H U == I, V V^H == I, Q^H Q == I, S >= 0 and ordered per sector (all four `which` orders for eigh), R upper-triangular with diag >= 0 on every sign-fork path, charge on the selected factor, signature and position of the new leg.',
    note='Trusted: z3; LAPACK contract (svd/qr/eigh outputs satisfy their defining equations, deterministic). Vacuity excluded per case by an exact rational witness. Outside: eig (non-Hermitian), lowrank/iterative policies, fix_signs, blocks beyond 3x3 (thorough 4x4).'),
+ 'C03': dict(engine='symx', design='4/C03', technique='symbolic execution of the real fuse/unfuse/mask/block code on solver-variable tensor elements; z3 equality of un-fused results with the NumPy reference on un-fused operands; catalogue of fusion plans and sector-mismatch patterns as bound',
+   text='unfuse(fuse(a)) == a (dense + legs incl. history) for random ordered partitions, depth <= 2 (thorough 3), hard/meta/mixed; norm^2 preserved as a polynomial identity; tensordot / + / - / vdot / trace over flat and nested fused legs equal the same operation over the original legs for operands whose matched legs have equal, subset, superset, overlapping or disjoint sector sets on EVERY fused sub-leg (missing sectors act as zeros); block() equals the direct-sum placement oracle; six families of incompatible fusion histories must raise YastnError and nothing else; a YastnError on a compatible pair is itself a violation.',
+   note='Trusted: z3; harness dense re-assembly. Outside: depth > 3, > 4 legs per group.'),
 }
 NA = {
  'C09': 'DMRG: outcome of iterated floating-point Krylov eigen-solves and LAPACK sweeps; a contract stub for eigs would assume the conclusion, chained LAPACK contracts need non-linear ideal reasoning z3/cvc5 do not finish (DESIGN 5)',
